@@ -65,8 +65,22 @@ Definition ok_s (x : scase) : bool := run_ops (sc_cfg x) empty_set (sc_ops x).
 Definition mismatches_s := mismatches ok_s.
 
 (* ---------- (b) produce requests measured at the mock broker ---------- *)
+(* the interceptors the harness installs: grow the value by d bytes, replace the value by one of v bytes, add a header,
+   panic at once (recovered by the producer: no effect) *)
+Inductive icpt := IGrowVal (d : Z) | ISetVal (v : Z) | IAddHeader (k v : Z) | IPanic.
+Definition apply_icpt (i : icpt) : interceptor := fun m =>
+  match i with
+  | IGrowVal d => {| m_id := m_id m; m_topic := m_topic m; m_part := m_part m; m_key := m_key m; m_val := Some (olen (m_val m) + d);
+                     m_headers := m_headers m; m_has_headers := m_has_headers m; m_encfail := m_encfail m |}
+  | ISetVal v => {| m_id := m_id m; m_topic := m_topic m; m_part := m_part m; m_key := m_key m; m_val := Some v;
+                    m_headers := m_headers m; m_has_headers := m_has_headers m; m_encfail := m_encfail m |}
+  | IAddHeader k v => {| m_id := m_id m; m_topic := m_topic m; m_part := m_part m; m_key := m_key m; m_val := m_val m;
+                         m_headers := m_headers m ++ [(k, v)]; m_has_headers := true; m_encfail := m_encfail m |}
+  | IPanic => m
+  end.
+
 Record breq := { br_batches : list (Z * Z * list Z); br_wire : Z }.   (* (topic, partition, message ids in order) *)
-Record bcase := { bc_cfg : cfg; bc_msgs : list msg; bc_fate : list (Z * Z); bc_reqs : list breq }.
+Record bcase := { bc_cfg : cfg; bc_icpts : list icpt; bc_msgs : list msg; bc_fate : list (Z * Z); bc_reqs : list breq }.
    (* bc_fate: (message id, 0 delivered | 1 rejected: headers | 2 rejected: too large | 9 failed after the dispatcher) *)
 
 Fixpoint find_msg (id : Z) (ms : list msg) : option msg :=
@@ -96,9 +110,11 @@ Definition fate_ok (c : cfg) (ms : list msg) (f : Z * Z) : bool :=
               (Z.eqb (snd f) 9 && Z.eqb (verdict_code (dispatcher_check c m)) 0)
   | None => false
   end.
+(* fates and request contents are judged on the messages as the interceptor chain left them *)
 Definition ok_b (x : bcase) : bool :=
+  let ms := map (fun m => snd (dispatcher_admit (bc_cfg x) (map apply_icpt (bc_icpts x)) m)) (bc_msgs x) in
   Nat.eqb (length (bc_fate x)) (length (bc_msgs x)) &&
-  forallb (fate_ok (bc_cfg x) (bc_msgs x)) (bc_fate x) && forallb (req_ok (bc_cfg x) (bc_msgs x)) (bc_reqs x).
+  forallb (fate_ok (bc_cfg x) ms) (bc_fate x) && forallb (req_ok (bc_cfg x) ms) (bc_reqs x).
 Definition mismatches_b := mismatches ok_b.
 
 (* ---------- (c) is the buffer flushed without further input? ---------- *)
